@@ -373,7 +373,7 @@ def read_ndjson(path):
     return out
 
 
-_VIOL = re.compile(r'<<"VIOL", (\d+), \{([^}]*)\}>>')
+_VIOL = re.compile(r'<<\s*"VIOL",\s*(\d+),\s*\{([^}]*)\}\s*>>')
 
 
 def parse_viol(out):
@@ -382,6 +382,8 @@ def parse_viol(out):
     for m in _VIOL.finditer(out):
         tags = re.findall(r'"([^"]+)"', m.group(2))
         res.append((int(m.group(1)), tags))
+    if len(res) != out.count('"VIOL"'):
+        raise Infra("could not parse every VIOL line printed by TLC (%d of %d)" % (len(res), out.count('"VIOL"')))
     return res
 
 
